@@ -18,8 +18,12 @@ SV(t) == [has |-> TRUE, s |-> t]
 Groups == {"a", "b"}
 Vals == {[k |-> "none", n |-> 0], [k |-> "nan", n |-> 0]} \cup {[k |-> "num", n |-> x] : x \in {-1, 0, 2}}
 Numeric(v) == v.k = "num"
-Str(v) == IF v.k = "nan" THEN "x" ELSE IF v.n = -1 THEN "-1" ELSE IF v.n = 0 THEN "0" ELSE "2"
-SLen(v) == IF v.k = "num" /\ v.n = -1 THEN 2 ELSE 1
+\* the field as text (last(), len()); numbers beyond the small alphabet come from the extra tables (magnitudes at which
+\* Go's %v switches to exponent notation when partial results are serialised: 1e+06 ...)
+Str(v) == IF v.k = "nan" THEN "x" ELSE ToString(v.n)
+RECURSIVE Digits(_)
+Digits(n) == IF n < 10 THEN 1 ELSE 1 + Digits(n \div 10)
+SLen(v) == IF v.k # "num" THEN 1 ELSE IF v.n < 0 THEN 1 + Digits(0 - v.n) ELSE Digits(v.n)
 LineT == [g : Groups, v : Vals]
 Empty == [samples |-> 0, F |-> [i \in 1..2 |-> NoF], S |-> [i \in 1..2 |-> NoS]]
 Min2(a, b) == IF a < b THEN a ELSE b
